@@ -29,6 +29,10 @@ type E2EParams struct {
 	Alloc     int    `json:"alloc"` // 0 never, 1 sometimes, 2 always: UE IP allocation by the agent
 	EndMarker int    `json:"endMarker"`
 	PoolLens  []int  `json:"poolLens"`
+	Shapes    int    `json:"shapes"`    // C09: number of QER-list shapes to run (enumeration starts at ShapeFrom, stride ShapeStep)
+	ShapeFrom int    `json:"shapeFrom"`
+	ShapeStep int    `json:"shapeStep"`
+	QosMode   int    `json:"qosMode"` // 1: always configure per-QFI bursts with distinct cbs / pbs / ebs
 }
 
 type E2ESummary struct {
@@ -78,7 +82,23 @@ func e2eRandWorker(args []string) error {
 			cfg.EndMarker = true
 		}
 
-		switch rng.Intn(3) {
+		qm := rng.Intn(3)
+		if p.QosMode == 1 {
+			qm = 3 + rng.Intn(2)
+		}
+
+		switch qm {
+		case 3: // distinct minima per burst kind, several QFIs, default entry present
+			cfg.QciQos = []agent.QciQos{{QCI: 0, CBS: 3000, PBS: 9000, EBS: 6000, BurstDurationMs: 10, Priority: 7}}
+			for k := 0; k < 6; k++ {
+				cfg.QciQos = append(cfg.QciQos, agent.QciQos{QCI: uint8(1 + rng.Intn(63)), CBS: uint32(rng.Intn(200000)), PBS: uint32(rng.Intn(200000)),
+					EBS: uint32(rng.Intn(200000)), BurstDurationMs: uint32(rng.Intn(100)), Priority: 1})
+			}
+		case 4: // no entry for QFI 0: the agent installs its default
+			for k := 0; k < 8; k++ {
+				cfg.QciQos = append(cfg.QciQos, agent.QciQos{QCI: uint8(1 + rng.Intn(63)), CBS: uint32(rng.Intn(100000)), PBS: uint32(rng.Intn(100000)),
+					EBS: uint32(rng.Intn(100000)), BurstDurationMs: uint32(1 + rng.Intn(30)), Priority: 1})
+			}
 		case 1:
 			cfg.QciQos = []agent.QciQos{{QCI: 0, CBS: 50000, PBS: 50000, EBS: 50000, BurstDurationMs: 10, Priority: 7},
 				{QCI: 9, CBS: 2048, PBS: 2048, EBS: 2048, BurstDurationMs: 0, Priority: 6}, {QCI: 8, CBS: 2048, PBS: 2048, EBS: 2048, Priority: 5}}
@@ -97,6 +117,38 @@ func e2eRandWorker(args []string) error {
 	}
 
 	run := int(p.Seed%1000) * 1000
+
+	if p.Shapes > 0 {
+		run++
+
+		if err := newWorld(run); err != nil {
+			sum.Err = err.Error()
+			return err
+		}
+
+		g := e2e.NewGen(w, rng.Int63(), e2e.GenOpt{Peers: 1, MaxSessions: 1})
+		w.Assoc("p1")
+
+		step := p.ShapeStep
+		if step <= 0 {
+			step = 1
+		}
+
+		for i, k := 0, p.ShapeFrom; i < p.Shapes && !w.Died; i, k = i+1, k+step {
+			g.RunShape("p1", e2e.ShapeAt(k%e2e.ShapeCount))
+		}
+
+		for k, v := range g.Stats {
+			sum.Stats[k] += v
+		}
+
+		sum.Lines += w.Lines
+		sum.Steps += w.Steps
+		sum.Accepted += w.Accepted
+		sum.Died = sum.Died || w.Died
+		w.Close()
+		w = nil
+	}
 
 	for sc := 0; sc < p.Scenarios; sc++ {
 		if w == nil {
